@@ -388,3 +388,54 @@ def c05_trigger_binds(p_rel: bool, p_req: bool, p_ro: bool, p_con: bool, calc_fi
             return False
     svs = [e for e in elements(root, "setvalue") if e.getAttribute("ref") == "/data/c1"]
     return len(svs) == 1 and svs[0].getAttribute("value") == "1+1" and svs[0].getAttribute("event") == "xforms-value-changed"
+
+
+# ---- i: logic attached through the element API stays on its own row (round 3) ------------------------------
+def c05_api_isolation(t: int, col: int, c0: int, c1: int) -> bool:
+    """
+    vpre: 0 <= t <= 3 and 0 <= col <= 3
+    vpre: 97 <= c0 <= 122 and 97 <= c1 <= 122
+    vpost: _ == True
+    """
+    from pyxform.builder import create_survey_element_from_dict
+
+    V = S(c0, c1)
+    typ = ["integer", "text", "decimal", "date"][t]
+    key = ["constraint", "relevant", "required", "jr:constraintMsg"][col]
+    js = {"type": "survey", "name": "data", "title": "x", "id_string": "x", "children": [{"type": typ, "name": "q1", "label": "A"}, {"type": typ, "name": "q2", "label": "B"}]}
+    s1 = create_survey_element_from_dict(js)
+    q1 = s1.children[0]
+    if q1.bind is None:
+        return False
+    q1.bind[key] = V  # Survey-API code attaching logic to one question it built
+    root1 = s1.xml()
+    # a second, unrelated form converted afterwards in the same process
+    s2, _w, _js = build_survey({"survey": [{"type": typ, "name": "q3", "label": "C"}, {"type": "text", "name": "q4", "label": "D"}]})
+    root2 = s2.xml()
+    bt = {"integer": "int", "text": "string", "decimal": "decimal", "date": "date"}[typ]
+
+    def attrs(root, path):
+        b = [x for x in elements(root, "bind") if x.getAttribute("nodeset") == path]
+        if len(b) != 1:
+            return None
+        return {k: b[0].getAttribute(k) for k in b[0].attributes.keys()}
+
+    from spec.tables import norm_truth
+
+    # yes/no spellings of logic values are normalised to true()/false() (documented; C05.c)
+    want1 = {"nodeset": "/data/q1", "type": bt, key: V if key == "jr:constraintMsg" else norm_truth(V)}
+    return attrs(root1, "/data/q1") == want1 and attrs(root1, "/data/q2") == {"nodeset": "/data/q2", "type": bt} and attrs(root2, "/data/q3") == {"nodeset": "/data/q3", "type": bt} and attrs(root2, "/data/q4") == {"nodeset": "/data/q4", "type": "string"}
+
+
+specialise(
+    "C05",
+    "i.api-isolation",
+    c05_api_isolation,
+    {"t": [0, 1, 2, 3]},
+    timeout=300,
+    kernel=("pyxform.question:Question.__init__", "pyxform.builder:SurveyElementBuilder._create_question_from_dict", "pyxform.survey_element:SurveyElement.xml_bindings"),
+    shims=("S1", "S2", "S3", "S4"),
+    symbolic="which logic attribute is attached (symbolic index over constraint, relevant, required, jr:constraintMsg), its 2-letter value",
+    bounds="question type fixed per instance; two questions of that type built through the builder API, logic attached to the first through its bind dict, then a second form converted in the same process: the attribute appears on that one bind only",
+    weight=30,
+)
